@@ -166,3 +166,38 @@ Lemma w_unreg_probing_refutes :
     (1003000, false, true, false); (1004000, false, true, false) ] /\
   self9 w_unreg_probing_ifs w_unreg_probing_its = [] /\ self7 w_unreg_probing_ifs w_unreg_probing_its = [].
 Proof. repeat split; vm_compute; reflexivity. Qed.
+
+(* ---- round 5: live responses on the unregister witness -------------------------------------------------- *)
+
+Definition live_resp (o : out) : bool :=
+  match o with OSend _ _ _ m => o_resp m && negb (is_goodbye m) | _ => false end.
+Definition outs_of (ifs : list intf) (its : list iter) (k : nat) : list out :=
+  match nth_error its k with
+  | Some it => snd (fst (fst (iterate (state_after ifs its k) it)))
+  | None => []
+  end.
+
+(* the announcement at +895 ms is a live response while the service is registered (one key in the
+   map, three micro-states in that iteration: the probing pass announces); after the unregister at
+   +2500 ms the map is empty and neither the repeat iteration nor the PTR question at +3000 ms
+   produces a live response *)
+Lemma w_unregister_live :
+  existsb live_resp (outs_of w_unregister_ifs w_unregister_its 4) = true /\
+  length (d_svcs (state_after w_unregister_ifs w_unregister_its 4)) = 1%nat /\
+  d_svcs (state_after w_unregister_ifs w_unregister_its 7) = [] /\
+  existsb live_resp (outs_of w_unregister_ifs w_unregister_its 7) = false /\
+  existsb live_resp (outs_of w_unregister_ifs w_unregister_its 8) = false /\
+  outs_of w_unregister_ifs w_unregister_its 7 <> [].
+Proof. repeat split; try (vm_compute; reflexivity). vm_compute. discriminate. Qed.
+
+(* w_exact: the first announcement at +895 ms queues its repeat for +1895 ms; the entry is still queued
+   when that iteration starts and the iteration sends an announcement *)
+Definition sends_announcement (os : list out) : bool :=
+  existsb (fun o => match o with OSend _ _ _ m => is_announcement m | _ => false end) os.
+Lemma w_exact_second_sent :
+  sends_announcement (outs_of w_exact_ifs w_exact_its 4) = true /\
+  queue_times (state_after w_exact_ifs w_exact_its 5) = [1001895] /\
+  option_map it_now (nth_error w_exact_its 5) = Some 1001895 /\
+  sends_announcement (outs_of w_exact_ifs w_exact_its 5) = true /\
+  queue_times (state_after w_exact_ifs w_exact_its 6) = [].
+Proof. repeat split; vm_compute; reflexivity. Qed.
